@@ -13,6 +13,7 @@ length, element sub-patterns, one starred capture) and mapping patterns (isinsta
   dict(a=x, b=y) / dict()  ->  {'a': x, 'b': y} / {}   (when the module never rebinds `dict`)
   _NAME = <literal> at module level, bound once  ->  uses of _NAME inside functions / classes read the literal
   x: T = v  ->  x = v   (annotated assignments outside class bodies; a bare `x: T` becomes `pass`; class-level ones declare record fields)
+  raise X from (A if C else B)   ->   if C: raise X from A / else: raise X from B
   try: <return / x => D[K]  /  except KeyError: <H>   ->   if K in D: <return / x =>  D[K] / else: <H>
       (one statement in the body, D an attribute or a local name - never `self` itself -, K free of calls other than id / str / repr /
       persistent_id / tuple; no else / finally, the exception not bound: the look-before-you-leap spelling of the same dict lookup)
@@ -291,6 +292,17 @@ class _DictCalls(ast.NodeTransformer):
         return node
 
 
+class _RaiseFrom(ast.NodeTransformer):
+    def visit_Raise(self, node):
+        if node.exc is not None and isinstance(node.cause, ast.IfExp):
+            import copy as _copy
+            c = node.cause
+            a = ast.copy_location(ast.Raise(exc=node.exc, cause=c.body), node)
+            b = ast.copy_location(ast.Raise(exc=_copy.deepcopy(node.exc), cause=c.orelse), node)
+            return ast.copy_location(ast.If(test=c.test, body=[a], orelse=[b]), node)
+        return node
+
+
 class _TryKeyError(ast.NodeTransformer):
     """try: return D[K] / except KeyError: H  ->  if K in D: return D[K] / else: H   (see the module docstring)"""
     PURE = {'id', 'str', 'repr', 'tuple', 'persistent_id', 'utils.persistent_id', 'int', 'len'}
@@ -351,6 +363,9 @@ def desugar(tree):
         ast.fix_missing_locations(tree)
     if any(isinstance(n, ast.Try) and len(n.handlers) == 1 and n.handlers[0].type is not None and ast.unparse(n.handlers[0].type) == 'KeyError' for n in ast.walk(tree)):
         tree = _TryKeyError().visit(tree)
+        ast.fix_missing_locations(tree)
+    if any(isinstance(n, ast.Raise) and isinstance(n.cause, ast.IfExp) for n in ast.walk(tree)):
+        tree = _RaiseFrom().visit(tree)
         ast.fix_missing_locations(tree)
     consts = _private_literal_constants(tree)
     if consts:
